@@ -27,11 +27,11 @@ func tokStr(toks []string) string {
 }
 
 type pathTextLine struct {
-	P    []string              `json:"p"`
-	Reg  map[string][]string   `json:"reg"`
-	Grp  map[string][][]any    `json:"grp"`
-	Grp2 map[string][][]any    `json:"grp2"`
-	Req  map[string][]string   `json:"req"`
+	P    []string            `json:"p"`
+	Reg  map[string][]string `json:"reg"`
+	Grp  map[string][][]any  `json:"grp"`
+	Grp2 map[string][][]any  `json:"grp2"`
+	Req  map[string][]string `json:"req"`
 }
 
 type pathURLLine struct {
